@@ -462,7 +462,8 @@ def projection(pid, stream):
         # the destination dump and the verdict of the Transfer step
         def _xferro(s):
             st = s.split(" ; ")
-            return st[1].split(" sd")[0] if len(st) > 1 else s
+            # (with a read-only SOURCE - the other half of the cases - the source's own observation after the call as well)
+            return st[1] if len(st) > 1 else s
         return _xferro
     if pid == "C17" and stream == "resets":
         # Reset clause: the configuration dumps (before the history, after each Reset: kind, capacity, options, texts,
